@@ -64,7 +64,7 @@ func Tokenize(s string) (toks Tokens) {
 			if tok.Offset == -1 {
 				tok.Offset = i
 			}
-			tok.Text += string(r)
+			tok.Text += s[i : i+size]
 		}
 		i += size
 	}
